@@ -120,6 +120,46 @@ Theorem cascade_order_independent :
 Proof. exact cascade_order_independent_lemma. Qed.
 Print Assumptions cascade_order_independent.
 
+(* The cascade never raises on a well-formed pyramid (every tile k x k, one maskable
+   mode bm that the pio's format can store; jpg files decode to k x k RGB), whatever
+   the visiting order, and leaves a well-formed pyramid: the hypotheses
+   "... = Some st'" above are met. *)
+Theorem cascade_defined :
+  forall u dflt k orc bm order st,
+    0 < k -> maskable bm = bm -> storable dflt bm -> good_store dflt k bm st ->
+    exists st', cascade_gen u dflt k orc st order = Some st' /\ good_store dflt k bm st'.
+Proof. exact cascade_defined_lemma. Qed.
+Print Assumptions cascade_defined.
+
+(* RGB children (in particular every jpg pyramid, where pixel values are not
+   modelled): the merged tile is never completely masked, so the parent exists
+   exactly when one of its children does. *)
+Theorem rgb_merge_never_masked :
+  forall u f k c0 c1 c2 c3 m,
+    0 < k -> (forall s o, u RGB s o = fill_px RGB s) -> rgb_children [c0; c1; c2; c3] ->
+    merge_tiles_gen u f k [c0; c1; c2; c3] = Some (Some m) ->
+    is_completely_masked m = false.
+Proof. exact rgb_merge_not_masked. Qed.
+Print Assumptions rgb_merge_never_masked.
+
+Theorem jpg_exists :
+  forall u k orc st p st',
+    0 < k -> (forall s o, u RGB s o = fill_px RGB s) ->
+    (forall c d, In c (children p) -> st c Jpg = Some d -> exists h w, d = FLossy h w /\ 0 <= h /\ 0 <= w) ->
+    st p Jpg = None ->
+    walk_callback_gen u Jpg k orc st p = Some st' ->
+    (st' p Jpg <> None <-> exists c, In c (children p) /\ st c Jpg <> None).
+Proof. exact jpg_exists_lemma. Qed.
+Print Assumptions jpg_exists.
+
+(* the compact placement description handed to the correspondence: child i occupies
+   rows [oy, oy+k) x columns [ox, ox+k) of the stored buffer, unit steps *)
+Theorem placement_meaning :
+  forall f k, 0 < k ->
+    placement f k = flat_map (fun o => [fst o; 1; k; snd o; 1; k]) (offsets (bottom_up f) k).
+Proof. exact placement_spec. Qed.
+Print Assumptions placement_meaning.
+
 (* --- non-vacuity ----------------------------------------------------------- *)
 
 (* a fits (bottom-up) cascade from level 1 with TL and BR children, NaN pixels:
@@ -140,3 +180,8 @@ Example avg_examples :
   avg4 (PxF None) (PxF None) (PxF None) (PxF None) = PxF None /\
   avg4 (PxC 9 8 7 255) (PxC 0 0 0 0) (PxC 0 0 0 0) (PxC 3 0 1 255) = PxC 3 2 2 127.
 Proof. vm_compute. repeat split; reflexivity. Qed.
+
+(* observation, outside the quantifier (no tiles above the start level beforehand):
+   with all four children absent the callback returns early and a stale parent file stays *)
+Example early_return_keeps_stale_parent : ex_stale_parent_survives = true.
+Proof. vm_compute. reflexivity. Qed.
